@@ -131,6 +131,11 @@ func evolve(rt *rapid.T, p *im.Program, ty *im.Type, fields []*im.Field, w wm.W,
 		}
 		k := wm.GenKind().Draw(rt, "unknown_kind")
 		v := wm.Gen(rt, k, wm.GenOpts{MaxDepth: 3, MaxLen: 3, SetLike: true}, "unknown_v")
+		if rapid.IntRange(0, 11).Draw(rt, "unknown_deep") == 0 {
+			// a newer writer's recursive type: a chain nested far deeper than anything the reader knows
+			v = deepChain(rapid.SampledFrom([]int{40, 65, 100, 300}).Draw(rt, "unknown_depth"), rapid.IntRange(0, 2).Draw(rt, "unknown_chain"))
+			k = v.K
+		}
 		pos := rapid.IntRange(0, len(out.Fields)).Draw(rt, "unknown_pos")
 		nf := append([]wm.Field{}, out.Fields[:pos]...)
 		nf = append(nf, wm.Field{ID: id, V: v})
@@ -213,11 +218,51 @@ func (t *Target) Project(w wm.W) (wm.W, error) {
 }
 
 // decodeBoth runs both deserializers of the target on enc.
+// deepChain builds a value nested depth levels deep: structs in structs (0), lists in lists (1)
+// or maps in structs in maps (2), with an i32 at the bottom.
+func deepChain(depth, form int) wm.W {
+	v := wm.I32(7)
+	for i := 0; i < depth; i++ {
+		switch form {
+		case 1:
+			v = wm.List(v.K, v)
+		case 2:
+			if i%2 == 0 {
+				v = wm.Map(wm.KI32, v.K, wm.Pair{K: wm.I32(int32(i)), V: v})
+			} else {
+				v = wm.Struct(wm.Field{ID: 2, V: v})
+			}
+		default:
+			v = wm.Struct(wm.Field{ID: 1, V: v}, wm.Field{ID: 2, V: wm.I32(int32(i))})
+		}
+	}
+	return v
+}
+
 func decodeBoth(t *Target, enc []byte, plan chunkio.Plan) (sv, vv reflect.Value, serr, verr error) {
+	return decodeBothFrom(t, enc, plan, false)
+}
+
+// decodeBothFrom: with bufSrc the streaming side reads from a *bytes.Buffer holding the whole
+// message (a source type callers really use, and one a library may special-case), and the
+// buffer's memory is overwritten once Decode has returned, as a caller reusing the buffer for
+// the next message would: the decoded value must not depend on it any more.
+func decodeBothFrom(t *Target, enc []byte, plan chunkio.Plan, bufSrc bool) (sv, vv reflect.Value, serr, verr error) {
 	sv = reflect.New(t.RT)
-	sr := binary.Default.Reader(chunkio.New(enc, plan))
-	serr = sv.Interface().(Codec).Decode(sr)
-	sr.Close()
+	if bufSrc {
+		mem := append([]byte{}, enc...)
+		buf := bytes.NewBuffer(mem)
+		sr := binary.Default.Reader(buf)
+		serr = sv.Interface().(Codec).Decode(sr)
+		sr.Close()
+		for i := range mem {
+			mem[i] ^= 0xa5
+		}
+	} else {
+		sr := binary.Default.Reader(chunkio.New(enc, plan))
+		serr = sv.Interface().(Codec).Decode(sr)
+		sr.Close()
+	}
 	vv = reflect.New(t.RT)
 	wv, err := binary.Default.Decode(bytes.NewReader(enc), wire.Type(t.Kind()))
 	if err == nil {
@@ -235,6 +280,8 @@ type C05Case struct {
 	W     wm.W         `json:"w"`
 	Edits []Edit       `json:"edits"`
 	Plan  chunkio.Plan `json:"plan"`
+	// BufferSource: the streaming side reads from a *bytes.Buffer that is overwritten afterwards
+	BufferSource bool `json:"buffer_source,omitempty"`
 }
 
 func checkC05(c C05Case) error {
@@ -244,7 +291,7 @@ func checkC05(c C05Case) error {
 	}
 	want, perr := t.Project(c.W)
 	enc := refcodec.Encode(c.W)
-	sv, vv, serr, verr := decodeBoth(t, enc, c.Plan)
+	sv, vv, serr, verr := decodeBothFrom(t, enc, c.Plan, c.BufferSource)
 	for _, r := range []struct {
 		name string
 		v    reflect.Value
@@ -298,7 +345,7 @@ func C05(t *testing.T) {
 			w = evolve(rt, tg.Prog.Schema, tg.Ty, nil, base, "$", 0, &edits)
 		}
 		w = Shuffle(rt, w, "shuf")
-		c := C05Case{CaseHeader: header(tg), W: w, Edits: edits, Plan: chunkio.GenPlan(rt, "plan")}
+		c := C05Case{CaseHeader: header(tg), W: w, Edits: edits, Plan: chunkio.GenPlan(rt, "plan"), BufferSource: rapid.IntRange(0, 3).Draw(rt, "buffer_source") == 0}
 		d := ev.Digest([]byte(tg.Prog.SchemaJSON), []byte(tg.Key), refcodec.Encode(w))
 		cls := []string{"unit:c05", "shape:" + tg.Class()}
 		nested := false
@@ -335,6 +382,8 @@ type C04Case struct {
 	Input []byte         `json:"input"`
 	Plans []chunkio.Plan `json:"plans"`
 	Src   string         `json:"src"`
+	// BufferSource: the last plan's streaming side reads from a *bytes.Buffer that is overwritten afterwards
+	BufferSource bool `json:"buffer_source,omitempty"`
 }
 
 func checkC04(c C04Case, stat *string) error {
@@ -366,7 +415,7 @@ func checkC04(c C04Case, stat *string) error {
 	var value res
 	var streams []res
 	for i, plan := range c.Plans {
-		sv, vv, serr, verr := decodeBoth(t, c.Input, plan)
+		sv, vv, serr, verr := decodeBothFrom(t, c.Input, plan, c.BufferSource && i == len(c.Plans)-1)
 		if i == 0 {
 			value = read(vv, verr)
 		}
@@ -430,6 +479,7 @@ func C04(t *testing.T) {
 			return
 		}
 		c.Plans = []chunkio.Plan{chunkio.GenPlan(rt, "plan0"), {Rest: 1}, chunkio.GenPlan(rt, "plan2")}
+		c.BufferSource = rapid.IntRange(0, 2).Draw(rt, "buffer_source") == 0
 		d := ev.Digest([]byte(tg.Prog.SchemaJSON), []byte(tg.Key), c.Input)
 		var stat string
 		err := ev.Guard(func() error { return checkC04(c, &stat) })
@@ -512,7 +562,106 @@ func checkC04Encode(c InvalidCase) error {
 	return nil
 }
 
+// C05BigCase: the reference encoding of a minimal value of the target, plus one unknown field
+// (id 32000) holding a list or set of Count one-byte elements. Stored symbolically.
+type C05BigCase struct {
+	CaseHeader
+	Count   int    `json:"count"`
+	Elem    string `json:"elem"` // bool | i8
+	Set     bool   `json:"set"`
+	AtFront bool   `json:"at_front"`
+}
+
+func (c C05BigCase) input(t *Target) (plain, big []byte) {
+	base := refcodec.Encode(minimalTarget(t))
+	// a struct encoding ends with the stop byte: the unknown field goes before it, or first
+	et := byte(wm.KBool)
+	if c.Elem == "i8" {
+		et = byte(wm.KI8)
+	}
+	kind := byte(wm.KList)
+	if c.Set {
+		kind = byte(wm.KSet)
+	}
+	f := []byte{kind, 0x7d, 0x00, et, byte(c.Count >> 24), byte(c.Count >> 16), byte(c.Count >> 8), byte(c.Count)}
+	f = append(f, make([]byte, c.Count)...) // false / 0 elements
+	if c.AtFront {
+		return base, append(f, base...)
+	}
+	return base, append(append(append([]byte{}, base[:len(base)-1]...), f...), 0)
+}
+
+func minimalTarget(t *Target) wm.W {
+	if t.Def == nil {
+		w := wm.Struct()
+		for _, f := range t.Fields {
+			if f.Required() {
+				w.Fields = append(w.Fields, wm.Field{ID: int16(f.ID), V: minimalValue(t.Prog.Schema, f.Type, 0)})
+			}
+		}
+		return w
+	}
+	return minimalValue(t.Prog.Schema, t.Ty, 0)
+}
+
+func checkC05Big(c C05BigCase) error {
+	t := findTarget(c.CaseHeader)
+	if t == nil {
+		return fmt.Errorf("target %s/%s not in this lab", c.ProgID, c.Target)
+	}
+	plain, big := c.input(t)
+	ps, pv, pse, pve := decodeBoth(t, plain, chunkio.Plan{})
+	if pse != nil || pve != nil {
+		return nil // the minimal value is not decodable for this target (union arity etc.): not this unit's business
+	}
+	bs, bv, bse, bve := decodeBoth(t, big, chunkio.Plan{Rest: 4096})
+	for _, r := range []struct {
+		name     string
+		got, ref reflect.Value
+		err      error
+	}{{"Decode", bs, ps, bse}, {"FromWire", bv, pv, bve}} {
+		if r.err != nil {
+			return ev.Errf("evolution/rejected-valid/"+r.name+"/unknown-field/long-collection", "%s of %s rejects a message whose only difference from an accepted one is an unknown field holding a %s of %d one-byte elements: %v", r.name, t.Key, map[bool]string{false: "list", true: "set"}[c.Set], c.Count, r.err)
+		}
+		a, e1 := t.ReadBack(r.got)
+		b, e2 := t.ReadBack(r.ref)
+		if e1 != nil || e2 != nil || !refcodec.CanonEqual(a, b) {
+			return ev.Errf("evolution/value/"+r.name+"/unknown-field/long-collection", "%s of %s: the value changes when an unknown long collection is added", r.name, t.Key)
+		}
+	}
+	return nil
+}
+
+// C05Big: unknown fields holding collections with more elements than any length threshold of the
+// readers (2^16, 2^20 and one more, 2^21): a grid over a few struct-like targets of the lab.
+func C05Big(t *testing.T) {
+	n := 0
+	for _, tg := range Targets() {
+		if !tg.StructLike() || tg.IsUnion() {
+			continue
+		}
+		n++
+		if n > 4 {
+			break
+		}
+		for _, count := range []int{1 << 16, 1<<20 - 1, 1 << 20, 1<<20 + 1, 1 << 21} {
+			for i, elem := range []string{"bool", "i8"} {
+				c := C05BigCase{CaseHeader: header(tg), Count: count, Elem: elem, Set: (count+i)%2 == 1, AtFront: i == 0}
+				ev.Case(ev.Digest([]byte(tg.Prog.SchemaJSON), []byte(tg.Key), []byte(fmt.Sprint(count, elem))), true, "unit:c05-big", fmt.Sprintf("count:%d", count))
+				ev.ReportSoft(t, "c05-big", c, ev.Guard(func() error { return checkC05Big(c) }))
+			}
+		}
+	}
+}
+
 func init() {
+	replayers["c05-big"] = func(t *testing.T, f *ev.Failure) {
+		var c C05BigCase
+		if err := json.Unmarshal(f.Case, &c); err != nil {
+			t.Fatal(err)
+		}
+		ev.Report(t, f.Unit, c, ev.Guard(func() error { return checkC05Big(c) }))
+	}
 	replayers["c05"] = func(t *testing.T, f *ev.Failure) {
 		var c C05Case
 		if err := json.Unmarshal(f.Case, &c); err != nil {
